@@ -155,7 +155,7 @@ def setup():
 
 
 def gen_cases(tier, seed):
-    n = {"quick": 1200, "thorough": 25000}[tier]
+    n = {"quick": 1200, "thorough": 100000}[tier]
     encs = list(ENC)
     return [{"id": "c17-%05d" % i, "seed": stable_hash(seed, "C17", i), "enc": encs[i % len(encs)],
              "wkind": ["none", "pos", "zeros", "nan"][(i // len(encs)) % 4],
